@@ -348,3 +348,17 @@ pub fn peg_diff(id: &str, sub: &str, kind: &str, g: &G, toks: &[char], l: &mut L
     }
     Err(first_err.unwrap())
 }
+
+/// Recursive grammars can backtrack exponentially (PEG without memoization; the library has no fuel): cases whose
+/// reference evaluation needs more than `limit` node evaluations are left out and counted.
+pub fn too_expensive(g: &G, toks: &[char], limit: u64, l: &mut Local) -> bool {
+    if !g.any_node(&|n| matches!(n, G::Rec(..))) {
+        return false;
+    }
+    let pre = reference::eval(g, toks, RefOpts::default());
+    if pre.stats.evals > limit || pre.stats.fuel_out {
+        l.bump("skipped_expensive_backtracking");
+        return true;
+    }
+    false
+}
